@@ -296,7 +296,7 @@ def clause5_payload(ctx, P):
     ok = len(dups) == 1 and P.term(crm, dups[0].a[0])[0] == "param" and P.term(crm, dups[0].a[0])[1] == 3 and P.const_int(dups[0].a[1]) == 1
     ctx.ob("C03.5 R-PAIR", crm, "payload:copy", ok, "caller's value/args is not relayed as a recursive duplicate")
     attach = False
-    for c in crm.calls("cJSON_AddItemToObject"):
+    for c in crm.calls(("cJSON_AddItemToObject", "add_item_to_object")):
         lit = Q.arg_literal(P, c, 1)
         lv, _ = Q.leaves(P, crm, c.a[2], through_loads=False)
         if lit in ("params", "value") and any(Q.is_call_to(l, "cJSON_Duplicate") for l in lv):
